@@ -128,7 +128,7 @@ pub fn rows(args: &[String]) -> i32 {
     let thorough = arg_value(args, "--tier").as_deref() == Some("thorough");
     let mut out = Out::new(&arg_value(args, "--out").unwrap_or("-".into()));
     let mut rng = Rng::new(seed ^ 0xC03);
-    let defs = definitions(&mut rng, if thorough { 1000 } else { 40 });
+    let defs = definitions(&mut rng, if thorough { 300 } else { 40 });
     let sufs: [&[u8]; 9] = [b"", b"0", b"1", b"01", b"2", b"10", b"12", b"125", b"001"];
     let foreign: [u8; 6] = [b'x', b'Z', b'7', b'_', b'e', b'G'];
     let mut emit = |def: &[u8], cand: &[u8], out: &mut Out| {
@@ -205,7 +205,7 @@ pub fn rows(args: &[String]) -> i32 {
         }
     }
     // random pairs
-    let nrand = if thorough { 500_000 } else { 4_000 };
+    let nrand = if thorough { 100_000 } else { 4_000 };
     let alphabet: &[u8] = b"ABab12_TRIGger0";
     for _ in 0..nrand {
         let def = rng.pick(&defs).clone();
